@@ -113,10 +113,17 @@ def kind_of_constant(sp, cls):
 KEYWORDS = "auto break case char const continue default do double else enum extern float for goto if inline int long register restrict return short signed sizeof static struct switch typedef union unsigned void volatile while _Alignas _Alignof _Atomic _Bool _Complex _Generic _Imaginary _Noreturn _Static_assert _Thread_local".split()
 
 
+# identifiers that begin like an encoding prefix / a raw-string prefix: the lexer looks ahead for a quote and must come back to an identifier
+PREFIX_HEADS = ["L", "u", "U", "R", "u8", "LR", "uR", "UR", "u8R", "U8", "u8L", "uU", "LL", "RR", "u88", "u8u8", "u8RR", "LRR", "uR8"]
+PREFIX_TAILS = ["", "x", "8", "R", "_", "ate", "8R", "R8", "0", "$", "é", "u8R", "L"]
+
+
 def gen_ident(rng):
     k = rng.randrange(10)
     if k == 0:
         return rng.choice(KEYWORDS)
+    if k == 1:
+        return rng.choice(PREFIX_HEADS) + rng.choice(PREFIX_TAILS)
     first = rng.choice("abcxyzLuUR_$TEpPeEfli" + "é中")
     body = "".join(rng.choice("abcxyz019_$RLuU8eEpP" + "é中\U0001F600") for _ in range(rng.choice([0, 0, 1, 1, 2, 3, 5, 9])))
     return first + body
@@ -288,9 +295,16 @@ def run(ctx):
             if "\n" in sep and b in ("#", "%:", "##", "%:%:"):
                 continue
             seqs.append((text, [("x", "ident", 0), (a, "punct", 2), (b, "punct", 2 + len(a + sep))]))
+    # identifiers that look like encoding / raw-string prefixes: alone, and in front of every token class but the literal they would prefix
+    for h in PREFIX_HEADS:
+        for t in PREFIX_TAILS:
+            w = h + t
+            seqs.append((w, [(w, "ident", 0)]))
+            for after, cls in ((";", "punct"), ("+", "punct"), ("(", "punct"), ("1", "int"), ("y", "ident")):
+                for sep in (" ", "\n", "/**/") + (("",) if cls == "punct" else ()):
+                    seqs.append((w + sep + after, [(w, "ident", 0), (after, cls, len((w + sep).encode()))]))
+            seqs.append(("a " + w + " b", [("a", "ident", 0), (w, "ident", 2), ("b", "ident", 2 + len(w.encode()) + 1)]))
     npairs = len(seqs)
-    for tri, k in TRIGRAPHS.items():
-        pass
     nseq = 4000 if ctx.quick else 80000
     for _ in range(nseq):
         seqs.append(gen_sequence(rng, rng.choice([1, 1, 2, 2, 3, 5, 8])))
